@@ -151,3 +151,30 @@ Theorem c20_chunk_rect : forall (nch : nat) (fr : list (list R)) (b h : nat), 1 
       exists x, nth_error fr (k * h + j) = Some x /\ nth_error (windowed_take_R rectR nch m c b) j = Some x.
 Proof. exact rect_chunk_frames. Qed.
 Print Assumptions c20_chunk_rect.
+
+(* ------------------------------------------------------------------------- *)
+(* Part 3 — the provided Iterator methods of the Windower, defined (Signal/Window.v) as their
+   defaults in core::iter in terms of repeated next; the crate overrides none of them and the
+   correspondence exercises last / nth / count / skip / step_by / fold / collect / by_ref.   *)
+
+(* last() is chunk number count-1: it starts at floor((L-b)/h)*h — not at L-b unless h divides L-b *)
+Theorem c20_last : forall (A : Type) (fr : list A) (b h : nat), 1 <= b -> 1 <= h ->
+  exists w', w_last (S (length fr)) (w_new fr b h) =
+    Ok (if b <=? length fr then Some (firstn b (skipn ((length fr - b) / h * h) fr)) else None, w') /\
+    w_next w' = Ok None.
+Proof. exact @windower_last. Qed.
+Print Assumptions c20_last.
+
+(* nth(k) (hence skip(k).next(), and the steps of step_by) is chunk k, None when k >= count *)
+Theorem c20_nth : forall (A : Type) (fr : list A) (b h k : nat), 1 <= b -> 1 <= h ->
+  exists w', w_nth k (w_new fr b h) =
+    Ok (if k <? (if b <=? length fr then (length fr - b) / h + 1 else 0)
+        then Some (firstn b (skipn (k * h) fr)) else None, w').
+Proof. exact @windower_nth. Qed.
+Print Assumptions c20_nth.
+
+Theorem c20_count_method : forall (A : Type) (fr : list A) (b h : nat), 1 <= b -> 1 <= h ->
+  exists w', w_count (S (length fr)) (w_new fr b h) =
+    Ok (if b <=? length fr then (length fr - b) / h + 1 else 0, w') /\ w_next w' = Ok None.
+Proof. exact @windower_count_method. Qed.
+Print Assumptions c20_count_method.
